@@ -109,7 +109,7 @@ package netpoll
 //@   ensures result
 //@   ensures (activeConn == old(activeConn) && shClosed == old(shClosed) + 1) || (activeConn == old(activeConn) + 1 && shClosed == old(shClosed))
 //@   ensures activeConn == old(activeConn) + 1 ==> as(value, *connection).keychain[closing] == old(as(value, *connection).keychain[closing])
-//@   modifies world, key:cell:int, shClosed, idleUnlocked
+//@   modifies world, key:cell:int, shClosed, idleUnlocked, locker.heldP, locker.sealed_heldP, cbRuns
 //@   ghost before call invoke.Close#1: assert !typeis(value, *connection) || idleUnlocked
 //@   ghost before call invoke.Close#1: shClosed = shClosed + 1
 
